@@ -22,6 +22,7 @@ CONSTANTS G,             \* number of goroutines
           NTop,          \* NTop[i]   : occurrences of the flat tag in input i
           NNested,       \* NNested[i]: nested messages in input i
           MaxBuf,        \* -1: no limit, else WithMaxBufferSize(MaxBuf)
+          Filter,        \* WithBufferFilterFunc: "none" | "halve" | "zero" | "neg" (a negative answer is ignored)
           MaxObj,        \* bound on the number of objects per level (model bound only)
           TruncKeepsNil, \* trunc as found in the pinned tree
           CloseTruncates \* FALSE: a mutant whose close() forgets to truncate data
@@ -47,6 +48,7 @@ Init == /\ obj = [o \in Objs |-> Fresh]
         /\ hist = <<>>
 
 Rep(x, n) == [k \in 1..n |-> x]
+FilterOf(c) == CASE Filter = "halve" -> c \div 2 [] Filter = "zero" -> 0 [] Filter = "neg" -> -1 [] OTHER -> c
 Avail(S) == {o \in S : obj[o].st = "pooled"} \cup
             (IF \E o \in S : obj[o].st = "free" THEN {CHOOSE o \in S : obj[o].st = "free"} ELSE {})
 
@@ -104,9 +106,13 @@ Close(g) ==
           /\ hist' = Append(hist, <<"close", g, o>>)
           /\ UNCHANGED <<obj, pc, cur>>
      ELSE LET ob1 == CloseAll(obj, cs)
-              trim == MaxBuf >= 0 /\ obj[o].capc > MaxBuf
-              newc == IF trim /\ TruncKeepsNil THEN Rep(NIL, MaxBuf) ELSE <<>>
-              newcap == IF trim THEN MaxBuf ELSE obj[o].capc IN
+              \* close(): trunc(maxBuffer) when a limit is set, then trunc(filter(cap())) when a filter is set and answers >= 0
+              trim1 == MaxBuf >= 0 /\ obj[o].capc > MaxBuf
+              cap1 == IF trim1 THEN MaxBuf ELSE obj[o].capc
+              want == FilterOf(cap1)
+              trim2 == Filter # "none" /\ want >= 0 /\ cap1 > want
+              newcap == IF trim2 THEN want ELSE cap1
+              newc == IF (trim1 \/ trim2) /\ TruncKeepsNil THEN Rep(NIL, newcap) ELSE <<>> IN
           /\ obj' = [ob1 EXCEPT ![o] = [@ EXCEPT !.st = "pooled", !.holder = 0,
                                                  !.data = IF CloseTruncates THEN <<>> ELSE @,
                                                  !.closers = newc, !.capc = newcap]]
